@@ -738,6 +738,10 @@ func exec1(t []string) string {
 		if len(diff) > 0 {
 			lastVerdict = "diff " + strings.Join(diff, ",")
 			// continue from the direct build: later comparisons are independent experiments
+			// (not when nothing is left: a fresh instance has History height 0, not k)
+			if len(keep) == 0 {
+				return status(e.cur)
+			}
 			e.cur, e.arb, e.ckp = fresh.cur, fresh.arb, fresh.ckp
 			e.twoMaps, e.special = false, false
 			for k := range e.cur.ActivityProducers {
@@ -1015,6 +1019,9 @@ func gen(g *hx.Gen) {
 					}
 				}
 				k := heights[len(heights)-1-d]
+				if r.Chance(12) && !e.arbMode {
+					k, d = base, len(heights) // below the first recorded height: the history becomes empty
+				}
 				g.Emit("rb %d", k)
 				// the generator's bookkeeping is approximate after a rollback: later txs may be
 				// no-ops for the state (unknown producer), which is fine — they are still blocks.
